@@ -73,6 +73,12 @@ def variants(inv, rnd, tier):
             for ct in (0, 3, 4, 5, 6):
                 for node in (None, 0x0102):
                     yield {cl.STD: std}, setopt(setv(inv.args, 0, ct), 5, node), list(inv.blobs), 'edition x node id'
+        if inv.callid == 11:
+            # the communication type given as a bytes object (the third documented form): any length
+            for ct in (0, 3, 4):
+                for raw in (b'', b'\x01', b'\x03', b'\x00', b'\xf3', b'\xff', b'\x01\x02', b'\xf3\x01\x02\x03', bytes(5)):
+                    for node in (None, 0x1234):
+                        yield {cl.STD: std}, setopt(setv(setv(inv.args, 0, ct), 1, 2), 5, node), [raw], 'communication type as bytes'
         if inv.callid == 8:
             for ms in (None, 0, 0xFF):
                 yield {cl.STD: std}, setopt(inv.args, 1, ms), list(inv.blobs), 'edition x memory selection'
@@ -120,9 +126,14 @@ def variants(inv, rnd, tier):
                 yield {}, a_define_bydid(did, ent), [], 'define by did'
         for ent in ([(0x1122, 4, 16, 8)], [(0x1122, 4, None, None)], [(0x1122, 4, 16, 8), (0x3344, 8, 16, 16)], [(0x112233, 4, 16, 8)],
                     [(0, 0, None, None)], [(0x1122, 4, None, None), (0x112233, 4, None, None)], [((1 << 64) - 1, (1 << 64) - 1, None, None)],
-                    [(1 << 64, 1, None, None)]):
-            for ca in (None, 16, 32):
-                yield {cl.SRV_ADDR: -1 if ca is None else ca}, a_define_bymem(0xF301, ent), [], 'define by memory'
+                    [(1 << 64, 1, None, None)],
+                    # entries whose automatic widths differ in the size only / in the address only / in one explicit format only
+                    [(0x1122, 4, None, None), (0x1123, 0x120, None, None)], [(0x1122, 0xFF, None, None), (0x1133, 0x100, None, None)],
+                    [(0x1122, 4, 16, None), (0x1123, 0x120, 16, None)], [(0x12, 4, None, 8), (0x1234, 4, None, 8)],
+                    [(0x1122, 4, None, None), (0x1123, 5, None, None), (0x1124, 0x10000, None, None)],
+                    [(0x1122, 4, None, 8), (0x1123, 5, None, None)], [(0x1122, 4, 16, None), (0x1123, 5, None, None)]):
+            for ca, cs in ((None, None), (16, None), (32, None), (None, 16), (32, 16), (16, 8)):
+                yield {cl.SRV_ADDR: -1 if ca is None else ca, cl.SRV_SIZE: -1 if cs is None else cs}, a_define_bymem(0xF301, ent), [], 'define by memory'
     if inv.callid == 15 and inv.args[0] == 1:
         # control type x presence x rate x how the caller typed the Baudrate: the full product (conversions between the
         # fixed / specific / identifier forms depend on all of them at once)
